@@ -25,6 +25,32 @@ func checkC04(r *Report, p *Program) {
 	r04_4(r, p)
 	rmwClosuresReadLive(r, p, "R04.5")
 	adoptAlwaysWrites(r, p, "R04.6")
+	listersListEverything(r, p, "R04.7")
+}
+
+// listersListEverything: the controllers list their caches unfiltered and leave the
+// matching to ClaimObject / the ownership filters / enqueueParentObject — which must
+// also see the objects that do NOT match: an owned child that stopped matching is
+// released only if it is among the candidates; a parent that fell out of the
+// selector but carries the finalizer is still woken.
+func listersListEverything(r *Report, p *Program, rule string) {
+	r.Rule(rule, "every cache listing in the composite/decorator controllers passes labels.Everything(); selection happens afterwards on the full candidate set")
+	r.Floor(rule, 7)
+	ord := map[string]int{}
+	for _, f := range p.Scanned {
+		if !strings.Contains(FK(f), "/pkg/controller/composite.") && !strings.Contains(FK(f), "/pkg/controller/decorator.") {
+			continue
+		}
+		for _, cs := range callsTo(f, false, "dynamiclister.NamespaceLister.List", "dynamiclister.Lister.List", "ControllerRevisionNamespaceLister.List", "ControllerRevisionLister.List") {
+			k := Short(FK(f)) + "→" + methodOf(cs.Key)
+			c := sf("%s#%d", k, ord[k])
+			ord[k]++
+			a := cs.Arg(0)
+			call := callOf(a)
+			ok := call != nil && engine.CallKey(call.Common()) == "k8s.io/apimachinery/pkg/labels.Everything"
+			r.Check(rule, c, p.InstrPos(cs.Instr), ok, "lists with labels.Everything()", "the cache is listed with "+E(a)+": objects that do not match never reach the code that must handle them (release of an owned child that stopped matching, waking a parent that only its finalizer keeps, the ownership filter)")
+		}
+	}
 }
 
 // tri-state valuation of an atom on a path prefix
@@ -451,6 +477,13 @@ func ownerRefEdits(r *Report, p *Program, rule string) {
 				return false, "an iteration does not keep exactly one entry"
 			}
 			same := val(pa, -1, re(`^\(.*\.UID == .*\.UID\)$`))
+			if same == 1 {
+				// our own entry is REPLACED by the reference being added (it carries controller=true,
+				// blockOwnerDeletion): keeping the old entry's flags leaves an owner that is not the controller
+				if !engine.DependsOnValue(appended[0], f.Params[1], nil) || engine.DependsOnValue(appended[0], f.Params[0], nil) {
+					return false, "the existing entry with the adopter's UID is kept (or merged) instead of being replaced by the controller reference: the object is never controlled by the parent and is re-adopted on every sync"
+				}
+			}
 			if same != 1 {
 				// foreign entry must be kept as is: the appended element derives from the range element, not from `add`
 				if engine.DependsOnValue(appended[0], f.Params[1], nil) && !engine.DependsOnValue(appended[0], f.Params[0], nil) {
@@ -644,16 +677,52 @@ func r04_4(r *Report, p *Program) {
 
 	// makeSelector: empty selector refused
 	if mk := fn(r, p, rule, "controller/composite.parentController.makeSelector"); mk != nil {
-		paths, err := engine.EnumPaths(mk, engine.EnumOpts{})
+		isUID := func(in ssa.Instruction) bool {
+			c, isC := in.(*ssa.Call)
+			if !isC || !strings.HasSuffix(engine.CallKey(c.Common()), "meta/v1.AddLabelToSelector") || len(c.Common().Args) != 3 {
+				return false
+			}
+			k, _ := constStr(c.Common().Args[1])
+			return k == "controller-uid"
+		}
+		paths, err := engine.EnumPaths(mk, engine.EnumOpts{Effect: func(in ssa.Instruction) bool {
+			return isCallTo(in, "GetNestedFieldInto") || isUID(in)
+		}})
 		if err != nil {
 			r.Fail(rule, FK(mk), p.Pos(mk.Pos()), "undecided", err.Error())
 			return
 		}
 		ok, why, n := true, "", 0
+		okG, whyG, nG := true, "", 0
 		for _, pa := range paths {
 			rt, isR := pa.End.(*ssa.Return)
 			if !isR {
 				continue
+			}
+			// generated selector ⇔ exactly {controller-uid: parent UID} (+ the extra labels); the parent's own spec.selector plays no part
+			if g := generatedSelectorOn(pa); g != 0 && engine.ReturnsNilError(rt) {
+				readsSpec, addsUID := false, false
+				for _, e := range pa.Effects {
+					if isUID(e) {
+						addsUID = true
+						if c := e.(*ssa.Call); !strings.Contains(E(c.Common().Args[2]), "GetUID)(p1)") {
+							okG, whyG = false, "controller-uid is set to "+E(c.Common().Args[2])+", not the parent's UID"
+						}
+					} else {
+						readsSpec = true
+					}
+				}
+				nG++
+				switch {
+				case g == 1 && !addsUID:
+					okG, whyG = false, "with generateSelector the selector does not select on controller-uid"
+				case g == 1 && readsSpec:
+					okG, whyG = false, "with generateSelector the parent's own spec.selector is read into the selector as well: children carry only the controller-uid label metacontroller gives them, so owned children stop matching and are released (and the hook no longer sees them)"
+				case g == -1 && addsUID:
+					okG, whyG = false, "without generateSelector the selector still requires controller-uid"
+				case g == -1 && !readsSpec:
+					okG, whyG = false, "without generateSelector the selector is not read from the parent's spec.selector"
+				}
 			}
 			emptyL := val(pa, -1, re(`^\(call\(builtin\.len\)\(.*\.MatchLabels\) == 0\)$`))
 			emptyE := val(pa, -1, re(`^\(call\(builtin\.len\)\(.*\.MatchExpressions\) == 0\)$`))
@@ -675,6 +744,10 @@ func r04_4(r *Report, p *Program) {
 			ok, why = false, "no path tests both matchLabels and matchExpressions for emptiness"
 		}
 		r.Check(rule, FK(mk)+"[empty-refused]", p.Pos(mk.Pos()), ok, "len(matchLabels)==0 ∧ len(matchExpressions)==0 ⇒ error", why)
+		if nG == 0 {
+			okG, whyG = false, "makeSelector does not branch on isUsingGeneratedLabelSelector"
+		}
+		r.Check(rule, FK(mk)+"[generated⇔controller-uid-only]", p.Pos(mk.Pos()), okG, "generated: {controller-uid: parent UID} only; otherwise: the parent's spec.selector", whyG)
 	}
 }
 
@@ -695,4 +768,33 @@ func flagLit(l Lit, field string) int {
 		return 1
 	}
 	return -1
+}
+
+// generatedSelectorOn: does the path assume spec.generateSelector true (+1) or
+// false/unset (-1)? Recognised on the helper call as well as on the inlined
+// `p != nil && *p` form (and on what a predicate helper implies).
+func generatedSelectorOn(pa engine.Path) int {
+	res := 0
+	for _, l := range pa.Lits {
+		switch {
+		case strings.Contains(l.Atom, "isUsingGeneratedLabelSelector)("):
+			if l.Pos {
+				return 1
+			}
+			return -1
+		case strings.Contains(l.Atom, ".GenerateSelector"):
+			if _, isNil, isT := l.NilTest(); isT || strings.HasSuffix(l.Atom, ".GenerateSelector == nil)") {
+				if isT && isNil || !isT && l.Pos {
+					return -1
+				}
+				continue // non-nil: the value decides
+			}
+			if l.Pos {
+				res = 1
+			} else {
+				return -1
+			}
+		}
+	}
+	return res
 }
